@@ -290,6 +290,55 @@ impl Random for RGBA {
     }
 }
 
+/// Verification hook (add-only, compiled only with feature `verif-hooks`)
+///
+/// Thread local virtual monotonic clock and [`std::time::Instant`] look-alike
+/// that reads it, used by the terminal poll loop under simulation.
+#[cfg(feature = "verif-hooks")]
+pub mod verif_clock {
+    use std::cell::Cell;
+    use std::time::Duration;
+
+    thread_local! {
+        static NOW_NS: Cell<u64> = const { Cell::new(0) };
+    }
+
+    /// Set current virtual time (nanoseconds)
+    pub fn set(now_ns: u64) {
+        NOW_NS.with(|now| now.set(now_ns));
+    }
+
+    /// Get current virtual time (nanoseconds)
+    pub fn get() -> u64 {
+        NOW_NS.with(|now| now.get())
+    }
+
+    #[derive(Debug, Clone, Copy, PartialEq, Eq, PartialOrd, Ord)]
+    pub struct Instant(u64);
+
+    impl Instant {
+        pub fn now() -> Self {
+            Instant(get())
+        }
+    }
+
+    impl std::ops::Add<Duration> for Instant {
+        type Output = Instant;
+
+        fn add(self, rhs: Duration) -> Instant {
+            Instant(self.0.saturating_add(rhs.as_nanos().min(u64::MAX as u128) as u64))
+        }
+    }
+
+    impl std::ops::Sub<Instant> for Instant {
+        type Output = Duration;
+
+        fn sub(self, rhs: Instant) -> Duration {
+            Duration::from_nanos(self.0.saturating_sub(rhs.0))
+        }
+    }
+}
+
 #[cfg(test)]
 mod tests {
     use super::IOQueue;
